@@ -21,7 +21,9 @@ CLAIMED = {
              "any padding), delivered ++ buffered ++ still-to-come is exactly the concatenated bodies of the active stream's records up to its "
              "terminator, each byte once, in order; all of it once the input is exhausted or the end is reached. C02_stream_end / "
              "C02_end_flag: stream_end is reported exactly when the parser stands at the terminating header, and then everything has been "
-             "delivered; C02_end_reported: once the terminator has been fed the next parse(None) reports it. Tie: differential execution of "
+             "delivered; C02_end_reported: once the terminator has been fed the next parse(None) reports it; C02_parse_progress / C02_schedule_progress - "
+             "progress in BOTH delivery modes: an Ok call leaves no byte of the selected stream behind in the unparsed part of the buffer "
+             "unless the caller's destination is full, so a call returns 0 bytes only when the buffered input holds nothing more of the stream. Tie: differential execution of "
              "op-interpreter schedules (direct and buffered reads of every size, 1-byte to whole-buffer feeding, compress / consume_output "
              "interleavings) on generated stream sections, with an independent oracle.",
         design="6/C02", technique="Coq proof (index-to-list refinement; conserved specification functions K/F/R; induction over all schedules; record-level reading) + differential execution of scheduled parser operations with independent oracle",
@@ -76,7 +78,12 @@ CLAIMED = {
              "returns ConnectionAborted because the parser stands at this request's AbortRequest header (Request.aborted is then set: C11_aborted_flag_source/_sticky) or because a reply flush failed with a transport error of that kind (flag untouched; exactly the former on fault-free transports); C11_abort_sticky - the error repeats "
              "on every later read without touching the transport; C11_prefix_before_error - input delivered before the error is a prefix of what "
              "the client sent; C11_boundary_ignores_abort + C11_one_endrequest_and_reuse - close() passes the retained abort header, writes "
-             "exactly one EndRequest with the given status and, with KeepConn, returns the connection for reuse (the C07 reuse law). Tie: abort "
+             "exactly one EndRequest with the given status and, with KeepConn, returns the connection for reuse (the C07 reuse law). END TO END: "
+             "C11_handler_abort_source (a reading handler that fabricates no abort of its own ends with Err(ConnectionAborted) on a fault-free "
+             "transport only because a read hit the client's AbortRequest: parser at the abort header, flag set), C11_abort_close (close on "
+             "such a request: never suspends, reads nothing, writes exactly the pending replies, the stream terminators owed and ONE EndRequest; "
+             "KeepConn hands back a parser holding exactly the unparsed input beginning with the retained abort header) and C11_abort_iteration "
+             "(Token::run maps the Err to ExitStatus::ABORT and goes on with that parser, or returns). Tie: abort "
              "placed after every record of preamble and streams, handlers reading / buffered-reading / not reading / past EOF, 0..k following "
              "requests, all chunkings, through model and crate with an independent oracle.",
         design="6/C11", technique="Coq proof (record-step theorem of the request parser; sticky-error and conservation lemmas of the connection model; close/reuse law) + differential execution with aborts at every record position",
